@@ -7,6 +7,11 @@
 #![allow(clippy::all, dead_code)]
 
 use super::*;
+// explicit imports: do not rely on what the parent module happens to import
+#[allow(unused_imports)]
+use std::fs::File;
+#[allow(unused_imports)]
+use std::fs::OpenOptions;
 use serde_json::{Value, json};
 use std::io::Write;
 
@@ -233,6 +238,32 @@ async fn observe(job: &Value) {
     for sc in &scenarios {
         if only.as_ref().map(|o| o.iter().any(|n| n == sc.name)).unwrap_or(true) {
             run_scenario(sc, dir, seed, &mut out, &mut summary).await;
+        }
+    }
+    // corrupted time stamp field (C27: "corruption of every header field"): an otherwise well-formed file whose first
+    // eight bytes hold an impossible time.  The start of the daemon must survive it - fresh keys or the file's keys,
+    // in either case a usable key set.  The start runs as its own task so that a panic in it is data.
+    for (name, t) in [("time_half", 1u64 << 63), ("time_max", u64::MAX), ("time_far", 1u64 << 40), ("time_zero", 0)] {
+        if only.as_ref().map(|o| o.iter().any(|n| n == name)).unwrap_or(true) {
+            let path = format!("{dir}/{name}.dat");
+            let mut rng = util::Rng::new(seed ^ 0x7469_6d65);
+            let keys: Vec<Vec<u8>> = (0..2).map(|_| rng.bytes(64)).collect();
+            craft(&path, 0o600, 5, 1, 2, &keys, t, 0);
+            let cfg = KeysetConfig { stale_key_count: HISTORY, key_rotation_interval: INTERVAL, key_storage_path: Some(path.clone()) };
+            let h = tokio::spawn(async move {
+                let mut rx = spawn(cfg).await;
+                let _ = rx.changed().await;
+                let ks = rx.borrow_and_update().clone();
+                usable(&ks)
+            });
+            let outcome = match tokio::time::timeout(std::time::Duration::from_secs(30), h).await {
+                Err(_) => "hang",
+                Ok(Err(e)) if e.is_panic() => "panic",
+                Ok(Err(_)) => "cancelled",
+                Ok(Ok(true)) => "ok",
+                Ok(Ok(false)) => "unusable",
+            };
+            summary.insert(name.to_string(), json!(outcome));
         }
     }
     out.finish();
